@@ -10,7 +10,7 @@ silently diverging from the model).
 """
 import re
 
-from extract import src, strip_comments, write, ExtractError, fn_body, define, c_int
+from extract import src, strip_comments, write, ExtractError, fn_body_x as fn_body, define, c_int
 
 
 def gen_parser():
